@@ -25,7 +25,7 @@ OpsNext == ClientOp /\ hist' = Append(hist, <<last'.op, last'.arg, last'.flag>>)
 OpsSpec == GInit /\ [][OpsNext]_<<vars, hist>>
 ViewAll == vars
 Control == [authed |-> authed, chan |-> chan, x11H |-> x11H, agentH |-> agentH, tcpH |-> tcpH,
-            x11Req |-> x11Req, agentReq |-> agentReq, fwd |-> fwd, hadFwd |-> hadFwd, refusedLast |-> refusedLast, subsysReg |-> subsysReg]
+            x11Req |-> x11Req, agentReq |-> agentReq, fwd |-> fwd, hadFwd |-> hadFwd, refusedLast |-> refusedLast, subsysReg |-> subsysReg, x11Out |-> x11Out]
 EmitWit == last.op \notin {"global", "open", "chanreq"} => PrintT(<<"WIT", Control, hist>>)
 SimEmit == Len(hist) = MaxLen => PrintT(<<"HIST", hist>>)
 Events == {<<"global", k, w>> : k \in GlobalKinds, w \in BOOLEAN}
